@@ -2466,13 +2466,14 @@ evhttp_get_body(struct evhttp_connection *evcon, struct evhttp_request *req)
 	}
 	evcon->state = EVCON_READING_BODY;
 	xfer_enc = evhttp_find_header(req->input_headers, "Transfer-Encoding");
-	if (xfer_enc != NULL && req->kind == EVHTTP_REQUEST &&
+	if (xfer_enc != NULL &&
 	    (evutil_ascii_strcasecmp(xfer_enc, "chunked") != 0 ||
 	     evhttp_count_headers(req->input_headers, "Transfer-Encoding") != 1)) {
-		/* The only transfer coding we implement is "chunked".  A request
+		/* The only transfer coding we implement is "chunked".  A message
 		 * whose Transfer-Encoding is anything else (other or several
 		 * codings, repeated field) must not be framed by guessing
-		 * (RFC 9112 6.1, 6.3): refuse it. */
+		 * (RFC 9112 6.1, 6.3; Transfer-Encoding overrides
+		 * Content-Length also in a response): refuse it. */
 		evhttp_connection_fail_(evcon, EVREQ_HTTP_INVALID_HEADER);
 		return;
 	}
